@@ -73,7 +73,7 @@ struct Engine
         return r;
     }
 
-    int pick_arena() { return K::ALWAYS_EQUAL ? 0 : static_cast<int>(rng.range(0, 2)); }
+    int pick_arena() { return !K::HAS_IDENTITY ? 0 : static_cast<int>(rng.range(0, 2)); }
     static int soccc(int a) { return K::SOCCC_DEFAULT ? 0 : a; }
 
     void check_element(int i)
@@ -127,7 +127,7 @@ struct Engine
             viol("C12,C02,C07", "element_outside_allocator_memory", fmt("%s: first field at %#zx is not inside a live block of the allocator", who, size_t(a[0].begin)));
             return;
         }
-        if (blk->arena != me.arena) viol("C08,C12", "block_of_foreign_arena", fmt("%s: storage block belongs to arena %d, get_allocator() is arena %d", who, blk->arena, me.arena));
+        if (blk->arena != (K::ALWAYS_EQUAL ? 0 : me.arena)) viol("C08,C12", "block_of_foreign_arena", fmt("%s: storage block belongs to arena %d, get_allocator() is arena %d", who, blk->arena, me.arena));
         if (a[0].begin != blk->base) viol("C05,C12", "element_not_at_block_start", fmt("%s: first field at %#zx, block starts at %#zx", who, size_t(a[0].begin), size_t(blk->base)));
         uintptr_t prev_end = blk->base;
         for (size_t k = 0; k < NF; ++k)
@@ -239,7 +239,7 @@ struct Engine
         pm[d].exists = true;
         pm[d].owns_block = true;
         pm[d].e = m.e[ui];
-        pm[d].arena = (form % 2 == 1) ? (K::ALWAYS_EQUAL ? 0 : arena) : 0;
+        pm[d].arena = (form % 2 == 1) ? (!K::HAS_IDENTITY ? 0 : arena) : 0;
         const size_t objs = tracked_objects(m.e[ui]);
         if (form >= 4)
         {
@@ -280,7 +280,7 @@ struct Engine
         pm[d].exists = true;
         pm[d].owns_block = true;
         pm[d].e = src.e;
-        const int eff = K::ALWAYS_EQUAL ? 0 : arena;
+        const int eff = !K::HAS_IDENTITY ? 0 : arena;
         switch (form)
         {
             case 0: pm[d].arena = soccc(src.arena); break;
@@ -294,8 +294,11 @@ struct Engine
                 break;
             case 3:
                 pm[d].arena = eff;
+                // allocator-extended move construction is not one of the operations C08 speaks about: with an always-equal
+                // allocator the given instance and the source's compare equal, either label is accepted
+                if (K::LABELLED) pm[d].arena = pool[d]->get_allocator().get_arena();
                 pm[s].moved_from = true;
-                if (eff == src.arena)
+                if (K::ALWAYS_EQUAL || eff == src.arena)
                 {
                     pm[s].owns_block = false;
                     pm[s].residual_objects = 0;
@@ -529,7 +532,7 @@ struct Engine
         const size_t n = 2 + static_cast<size_t>(rng.below(4));
         m.cap = n;
         for (size_t i = 0; i < Cfg::N_FIXED; ++i) m.fixed.push_back(static_cast<size_t>(rng.below(4)));
-        m.arena = K::ALWAYS_EQUAL ? 0 : 1;
+        m.arena = !K::HAS_IDENTITY ? 0 : 1;
         std::vector<MElem> es;
         size_t payload = 0;
         for (size_t i = 0; i < n; ++i)
